@@ -66,6 +66,11 @@ static void password_sweep(struct res *r) {
         r->validated += 2; r->cls[0] += 2;
         next:;
     }
+    /* the password operation cannot fail: with a refusing allocator it must still be applied exactly */
+    { static const char *PWF[] = { "ascii", "contrase\xC3\xB1a", "\xEF\xBD\xB6" };
+      for (unsigned k = 0; k < 3; k++) { polyseed_data *s = seed_from_ref(&SEC[2]); rseed want = SEC[2]; ref_crypt(&want, E.mask); env_clear_log(); E.fail_at = 0; polyseed_crypt(s, PWF[k]); E.fail_at = -1; r->cases++; r->calls += 2;
+        uint8_t st[32], exp[32]; polyseed_store(s, st); ref_storage(&want, exp); polyseed_free(s);
+        if (memcmp(st, exp, 32)) res_viol(r, "c12:crypt-refusing-allocator", "pw", "polyseed_crypt with a refusing allocator did not apply the password operation (password #%u)", k); else { r->validated++; r->cls[0]++; } } }
     res_sample(r, "passwords a..a<accented>b..b of 2..65 bytes with the accented character at every offset, composed and decomposed");
 }
 
